@@ -32,7 +32,7 @@ if git -C /repo apply --check $out/patch.diff 2>/dev/null; then
 [check $c quick]
 $r"
   done
-  git -C /repo checkout -- .
+  git -C /repo apply -R $out/patch.diff
 else
   res="patch does not apply to /repo"
 fi
